@@ -168,10 +168,11 @@ func AppendUnzstdBytes(dst, src []byte) ([]byte, error) {
 	return w.b, err
 }
 
-// normalizes compression level into [0..7], so it could be used as an index
-// in *PoolMap.
+// normalizes compression level into [1..4], so it could be used as an index
+// in *PoolMap and is accepted by the zstd encoder. CompressZstdSpeedNotSet
+// is not an encoder level, it selects the default one.
 func normalizeZstdCompressLevel(level int) int {
-	if level < CompressZstdSpeedNotSet || level > CompressZstdBestCompression {
+	if level <= CompressZstdSpeedNotSet || level > CompressZstdBestCompression {
 		level = CompressZstdDefault
 	}
 	return level
